@@ -16,6 +16,7 @@ DECIDED = ("R1 crash sequence in Sim::crash: World::current is set to the host b
 NOT_DECIDED = "that destructors of user tasks run (tokio's contract for dropping a runtime), prompt unblocking times."
 DECIDED += "; R7 exhaustive scans: Sim::crash, Sim::run_with_hosts and IoUringHostState::crash visit every element"
 DECIDED += "; R8 peers are told: an abandoned, already answered connect resets the peer's stream; a RST wakes a writer parked on flow control (recorded finding D32)"
+DECIDED += '; R2 also: the FIN is remembered as EOF on both read paths (read and peek; shared C02-R3)'
 ASSUMPTIONS = ["dropping a tokio Runtime and LocalSet drops every task they own"]
 
 
